@@ -446,6 +446,108 @@ def composition_rule(ctx, repo):
             else:
                 ctx.ok({'first': an, 'second': bn, 'edges of second': len(tail_ab)})
 
+def formats_rule(ctx, repo):
+    """C11.7 (*fold*): one logical tape, written by the checker in three container formats from their specifications (TAP; TZX 1.20 with
+    standard-speed 0x10, turbo 0x11 carrying the ROM timings, and pure tone 0x12 + pulse sequence 0x13 + pure data 0x14; PZX 1.0 PULS/DATA/PAUS),
+    is folded through parse_tap / parse_tzx / parse_pzx and get_edges: all must give the edge list the ROM loader timings define
+    (pilot 8063 or 3223 x 2168, sync 667 + 735, bits 855 / 1710 twice, one second between blocks) and report the same data ranges."""
+    from sa.core.classfold import ClassFolder
+    ctx.rule('C11.7-formats', 'the same logical tape as TAP, TZX (0x10 / 0x11 / 0x12+0x13+0x14) and PZX, built from the format specifications and folded through the parsers and get_edges, yields the reference edge list and the same data ranges', floor=10)
+    cf = ClassFolder(repo, 'tape')
+    where = 'skoolkit/tape.py'
+    def w16(v): return [v & 255, (v >> 8) & 255]
+    def w24(v): return [v & 255, (v >> 8) & 255, (v >> 16) & 255]
+    def w32(v): return [v & 255, (v >> 8) & 255, (v >> 16) & 255, (v >> 24) & 255]
+    PILOT, S1, S2, ZERO, ONE, PAUSE_MS = 2168, 667, 735, 855, 1710, 1000
+    def npilot(flag): return 8063 if flag < 128 else 3223
+    def tap(blocks):
+        out = []
+        for b in blocks:
+            out += w16(len(b)) + list(b)
+        return bytes(out)
+    def tzx(blocks, style):
+        out = list(b'ZXTape!\x1a') + [1, 20]
+        for b in blocks:
+            if style == 'standard':
+                out += [0x10] + w16(PAUSE_MS) + w16(len(b)) + list(b)
+            elif style == 'turbo':
+                out += [0x11] + w16(PILOT) + w16(S1) + w16(S2) + w16(ZERO) + w16(ONE) + w16(npilot(b[0])) + [8] + w16(PAUSE_MS) + w24(len(b)) + list(b)
+            else:
+                out += [0x12] + w16(PILOT) + w16(npilot(b[0]))
+                out += [0x13, 2] + w16(S1) + w16(S2)
+                out += [0x14] + w16(ZERO) + w16(ONE) + [8] + w16(PAUSE_MS) + w24(len(b)) + list(b)
+        return bytes(out)
+    def pzx(blocks):
+        out = list(b'PZXT') + w32(2) + [1, 0]
+        for k, b in enumerate(blocks):
+            if k:
+                out += list(b'PAUS') + w32(4) + w32(PAUSE_MS * 3500)
+            puls = w16(0x8000 | npilot(b[0])) + w16(PILOT) + w16(S1) + w16(S2)
+            out += list(b'PULS') + w32(len(puls)) + puls
+            data = w32(0x80000000 | (8 * len(b))) + w16(945) + [2, 2] + w16(ZERO) + w16(ZERO) + w16(ONE) + w16(ONE) + list(b)
+            out += list(b'DATA') + w32(len(data)) + data
+        return bytes(out)
+    def reference(blocks, tail=0):
+        edges = [0]
+        t = 0
+        ranges = []
+        for k, b in enumerate(blocks):
+            for _ in range(npilot(b[0])):
+                t += PILOT; edges.append(t)
+            for d in (S1, S2):
+                t += d; edges.append(t)
+            start = len(edges) - 1
+            for byte in b:
+                for bit in range(8):
+                    d = ONE if byte & (0x80 >> bit) else ZERO
+                    for _ in range(2):
+                        t += d; edges.append(t)
+            if tail:
+                t += tail; edges.append(t)        # the tail pulse belongs to the PZX DATA block
+            ranges.append((start, len(edges) - 1))
+            if k + 1 < len(blocks):
+                t += PAUSE_MS * 3500
+        return edges, ranges
+    tapes = {
+        'header + data': [[0x00, 3, 65, 66, 67, 0x55], [0xFF, 1, 2, 3, 0x81, 0x7E]],
+        'single data block': [[0xFF, 0xA5]],
+        'three blocks': [[0x00, 0x00], [0xFF, 0xFF], [0x7F, 0x80, 0x01]],
+    }
+    for tname, blocks in tapes.items():
+        want_edges, want_ranges = reference(blocks)
+        variants = [('TAP', 'parse_tap', tap(blocks), 0), ('TZX standard speed', 'parse_tzx', tzx(blocks, 'standard'), 0), ('TZX turbo', 'parse_tzx', tzx(blocks, 'turbo'), 0),
+                    ('TZX tone+pulses+pure data', 'parse_tzx', tzx(blocks, 'pure'), 0), ('PZX', 'parse_pzx', pzx(blocks), 945)]
+        for vname, parser, data, tail in variants:
+            name = '%s as %s' % (tname, vname)
+            try:
+                if parser == 'parse_tzx':
+                    tp = cf.call_func('tape', parser, [data], {'info': False, 'timings': True})
+                else:
+                    tp = cf.call_func('tape', parser, [data])
+                blks = [b for b in tp.blocks if b.timings]          # as tap2sna does before building the edge list
+                for b in blks:
+                    if not hasattr(b, 'keys'):
+                        b.keys = None
+                r = cf.call_func('tape', 'get_edges', [blks])
+                edges, dbs = list(r[0]), [(d.start, d.end) for d in r[1] if list(d.data)]
+            except NotLiteral as e:
+                ctx.limit(name, 'not foldable: %s' % e)
+                continue
+            except (KeyError, IndexError, ValueError, TypeError, AttributeError) as e:
+                ctx.violation(name, where, '%s: parsing or get_edges fails with %s: %s' % (name, type(e).__name__, e))
+                continue
+            we, wr = reference(blocks, tail) if tail else (want_edges, want_ranges)
+            if tail and we[-1] == edges[-1] + tail:
+                we = we[:-1]          # a final tail pulse is dropped at the end of the tape
+                wr = wr[:-1] + [(wr[-1][0], wr[-1][1] - 1)]
+            if edges != we:
+                k = next((i for i, (x, y) in enumerate(zip(edges, we)) if x != y), min(len(edges), len(we)))
+                ctx.violation(name, where, '%s: edge %d is %s, the ROM timings give %s (%d edges vs %d)' % (name, k, edges[k:k + 3], we[k:k + 3], len(edges), len(we)))
+            elif dbs != wr:
+                ctx.violation(name, where, '%s: data ranges %s, expected %s' % (name, dbs, wr))
+            else:
+                ctx.ok({'tape': tname, 'format': vname, 'edges': len(edges)})
+
 def run(ctx):
     repo = pyfacts.Repo(ctx.repo_root)
     pulses_rule(ctx, repo)
@@ -454,6 +556,7 @@ def run(ctx):
     monotonic_rule(ctx, repo)
     start_index_rule(ctx, repo)
     composition_rule(ctx, repo)
+    formats_rule(ctx, repo)
     from sa.rules import memo
     memo.run_for(ctx, repo, 'C11')
     return report.finish(ctx, EXPLANATION)
